@@ -141,6 +141,9 @@ func c01(c *eng.Ctx) {
 	c.Rule("R7", "defaults: an empty resourceNames / userGroups / (users and serviceAccounts) list matches everything, an empty verbs / apiGroups / resources / nonResourceURLs list matches nothing (forcing with the list length pinned to 0)", 7)
 	c.Rule("R8", "glob forms are wired: trailing-'*' prefix match for users and non-resource URLs (HasPrefix(request, TrimRight(entry,\"*\")) under HasSuffix(entry,\"*\")), '*/sub' for resources (entry == \"*/\"+subresource under HasPrefix(entry,\"*/\") and a non-empty subresource)", 3)
 
+	c.Rule("R9", "one rule field per polarity decision: at every call from a per-field matcher to a function that splits a list into positive and '-'-inverted entries, the list argument derives from exactly one parameter of the matcher", 5)
+	c.Rule("R10", "a successful ClusterInfo.Sync publishes the synced object's own Spec.DispatchPolicies: every nil return lies behind the single store to currentDispatchPolicies, except the refusal of an object whose name is not this cluster's", 3)
+
 	c01R1(c)
 	c01R2(c)
 	c01R3(c)
@@ -148,6 +151,8 @@ func c01(c *eng.Ctx) {
 	c01R5(c)
 	c01R7(c)
 	c01R8(c)
+	c01R9(c)
+	c01R10(c)
 }
 
 // ---- R1 -------------------------------------------------------------------------------
@@ -802,8 +807,8 @@ func c01Contrib(r ssa.Instruction) []eng.Guard {
 type c01Fold struct {
 	fn     *ssa.Function
 	ret    *ssa.Return
-	guards []eng.Guard   // guards evaluated inside the loop
-	loop   *rangeLoop    // the innermost recognised loop over a collection, if any
+	guards []eng.Guard // guards evaluated inside the loop
+	loop   *rangeLoop  // the innermost recognised loop over a collection, if any
 	loops  []rangeLoop
 }
 
